@@ -19,8 +19,8 @@ META = {
              "left-padded to whole bytes, that a string's raw value is its whole buffer right-padded, that the text is decode(codec, exact byte "
              "range) for the whole buffer / the part before the first terminator / the part selected by the leading size tag, with the codec the "
              "document declares (byte order honoured for UTF-16/32), and that the cursor advances by exactly the computed length whichever way the "
-             "text is delimited; documents that demand an error (terminator absent, size tag not a multiple of 8 or too large, no lookup match, "
-             "negative or non-integral size) must fail.",
+             "text is delimited.  Where the document asks for something the property does not specify (terminator absent, size tag not a multiple of 8 or "
+             "too large, no lookup match, non-integral size) any outcome is accepted; a negative or over-long computed size must not be delivered clean.",
     "trusted": "z3; BV proxies; bytes.decode as an uninterpreted function of (codec, bytes) - codec correctness and BOM handling are trusted; "
                "Spec-XTCE; every path cross-validated on a witness whose text bytes are printable ASCII where the path allows",
     "bounds": {"quick": {"codecs": ["UTF-8", "US-ASCII", "UTF-16 (declared BE)", "UTF-16LE"], "offsets": [0, 3, 5], "packet": "16 / 14 bytes",
